@@ -2,6 +2,7 @@ import Sif.Model.Registry
 import Mathlib.Tactic.Linarith
 import Mathlib.Tactic.Positivity
 import Mathlib.Tactic.FieldSimp
+set_option linter.unusedSimpArgs false
 /-
   C12 — the rational comparison of `GetLiquidityAddSymmetryState` is a cross-multiplication.
 -/
